@@ -32,9 +32,10 @@ C11Env ==
   /\ Check("instance_xmlns", O.root_ns = (IF Has(S, "instance_xmlns") THEN Val(S, "instance_xmlns") ELSE "http://www.w3.org/2002/xforms"))
   /\ Check("prefix", Attr("odk:prefix") = Opt(S, "prefix"))
   /\ Check("delimiter", Attr("odk:delimiter") = Opt(S, "delimiter"))
+  /\ Check("entities_namespace_declared_with_entity", S.ent => "entities=http://www.opendatakit.org/xforms/entities" \in SeqToSet(O.nsdecls))
   /\ Check("no_other_root_attributes", \A i \in 1..Len(O.root_attrs) :
               O.root_attrs[i][1] \in {"id", "version", "plain_attr", "{" \o S.ns_uri \o "}nsattr", "odk:prefix", "odk:delimiter"})
-TInit == tid \in 1..Len(Traces) /\ l = 1 /\ on = {} /\ chan = "mem" /\ fname = FALSE /\ phase = "trace"
+TInit == tid \in 1..Len(Traces) /\ l = 1 /\ on = {} /\ chan = "mem" /\ fname = FALSE /\ ent = FALSE /\ phase = "trace"
 TStep == /\ l <= Len(T) /\ Ev.ev = "settings"
          /\ Check("converted", Ev.status = "ok")
          /\ C11Env
